@@ -107,7 +107,7 @@ async def calculate_in_subprocess(func: Callable[..., Union[T, Awaitable[T]]], *
     return result
 
 
-def _inner(tx: Connection, fun: Callable[..., Union[T, Awaitable[T]]], *a, **kw_args) -> None:
+def _inner(tx: Connection, fun: Callable[..., Union[T, Awaitable[T]]], /, *a, **kw_args) -> None:
     """ This runs in another process. """
 
     event_loop = None
